@@ -426,11 +426,17 @@ def run_reloc(spec):
             insts.setdefault(k, (ci, a, data, rels[0]))
     base = 1 << 27    # load address shown by the reference (--adjust-vma): room for negative distances
     plan_ = []
+    per_type = {}
     for k, (ci, a, data, rel) in sorted(insts.items()):
         rcls = arch.isa.relocation_map[rel.name]
+        per_type[rel.name] = per_type.get(rel.name, 0) + 1
+        if per_type[rel.name] > (8 if tier == "quick" else 40):
+            continue      # enough instances of this relocation type
         dists = set()
         for kk in range(1, 34):
-            dists.update((align * ((1 << kk) - 1), -align * (1 << (kk - 1)), align * (1 << kk)))
+            for edge in (align << kk, -(align << (kk - 1))):
+                for j in (-3, -2, -1, 0, 1, 2, 3):      # +-2^k +- {0, 1, 2, 3} * alignment (pc bias 4/8 included)
+                    dists.add(edge + j * align)
         dists.update((0, align, -align))
         for d in sorted(dists):
             plan_.append((k, ci, a, data, rel, rcls, d))
